@@ -80,13 +80,11 @@ def d6_2(ctx):
         tw2 = _resolve_cls_tokens(ctx, c, tw2)
         ctx.check(tw2 == tr2, ckey(c.key, "symmetry"), dfn, f"written {tw2} == read {tr2}",
                   f"{c.name}: encode writes fields {tw2} but decode reads {tr2}", written=show(lay), read=[list(x) for x in rl])
-    # IPAddress: 4 bytes both ways
-    ip = ctx.model.cls(f"{CT}:IPAddress")
-    e, d = ip.methods.get("_encode"), ip.methods.get("_decode")
-    enc_ok = e is not None and any(isinstance(r, ast.Return) and isinstance(r.value, ast.Attribute) and r.value.attr == "packed" and isinstance(r.value.value, ast.Call) and (call_name(r.value.value) or "").endswith("IPv4Address") for r in walk(e))
-    rl = reads(ctx, ip)[2]
-    dec_ok = rl == [("read", 4)] and any(isinstance(r, ast.Return) and isinstance(r.value, ast.Attribute) and r.value.attr in ("exploded", "compressed") for r in walk(d))
-    ctx.check(enc_ok and dec_ok, ckey(ip.key, "symmetry"), d or ip.node, "IPv4Address(value).packed (4 bytes) <-> IPv4Address(read 4).exploded", "IPAddress does not write/read the same 4 packed bytes", read=rl)
+    # IPAddress: 4 bytes <-> dotted quad both ways, folded on witness addresses (D16.11) - an earlier form required
+    # `IPv4Address(value).packed` / `.exploded` in the two methods
+    from .driver import _ipaddress_rule
+
+    _ipaddress_rule(ctx)
     # identity object: what decode rewrites (names for ids, hex text for the serial) encode turns back - folded on a witness
     # identity through both methods with the structure codec as a marker
     from ..miniinterp import Obj, run_function
